@@ -83,49 +83,70 @@ def r_xpath_spell(ck: Checker) -> None:
     g = ck.repo.func(LNODE, "AwareASTNode.calculate_xpath")
     body = strip_docstring(g.node.body)
     what = "calculate_xpath refuses non-roots, spells the root as '/@root[0]<Class>' and sets the path of every child subtree"
-    stm = [norm(st) for st in body]
-    loops = [st for st in body if isinstance(st, ast.For)]
-    ok = isinstance(body[0], ast.If) and norm(body[0].test) == "not self.is_attached_root" and any(isinstance(s, ast.Return) and norm(s.value) == "False" for s in body[0].body) \
-        and "xpath = f'/@root[0]{self.__class__.__name__}'" in stm and "object.__setattr__(self, '_xpath', xpath)" in stm \
-        and len(loops) == 1 and norm(loops[0].iter) == "self.get_child_nodes()" and len(loops[0].body) == 1 \
-        and norm(loops[0].body[0]) in (f"_set_xpath({norm(loops[0].target)}, parent_xpath=xpath)", f"_set_xpath({norm(loops[0].target)}, xpath)")
-    (ck.holds if ok else ck.violation)("R-LEG-XPATH-SPELL", g, g.node, what, **({} if ok else {"construct": "calculate_xpath: root guard / root spelling / recursion not recognised"}))
+    from ..dtree import decision_tree
+
+    leaves = decision_tree(body, resolve=True)
+    bad = None
+
+    def spelled_root(e: ast.expr) -> bool:
+        d = [(x.text if isinstance(x, Lit) else "{" + x.src + "}") for x in eval_str(e, {}, {})]
+        return d in (["/@root[0]", "{self.__class__.__name__}"], ["/@root[0]", "{type(self).__name__}"])
+
+    for lf in leaves:
+        a = lf.assign
+        if set(a) - {"self.is_attached_root"}:
+            raise Unsupported(f"calculate_xpath decides on {sorted(a)}", g.node)
+        if "self.is_attached_root" not in a:
+            bad = "does not test whether the node is an attached root"
+            continue
+        sets = [c for st in lf.stmts for c in ast.walk(st) if isinstance(c, ast.Call) and dotted(c.func) in ("object.__setattr__", "setattr")
+                and len(c.args) == 3 and norm(c.args[0]) == "self" and norm(c.args[1]) == "'_xpath'"]
+        loops = [st for st in lf.stmts if isinstance(st, ast.For)]
+        if not a["self.is_attached_root"]:
+            if sets or loops or lf.outcome != "return" or lf.val() != "False":
+                bad = "a non-root is not refused (False, nothing written)"
+            continue
+        if len(sets) != 1 or not spelled_root(sets[0].args[2]):
+            bad = f"root path stored as {[norm(c.args[2])[:50] for c in sets]}"
+            continue
+        ok_loop = False
+        for lp in loops:
+            if norm(lp.iter) == "self.get_child_nodes()" and len(lp.body) == 1 and isinstance(lp.body[0], ast.Expr) and isinstance(lp.body[0].value, ast.Call) \
+                    and dotted(lp.body[0].value.func) == "_set_xpath":
+                c = lp.body[0].value
+                args = [norm(x) for x in c.args]
+                pv = c.args[1] if len(c.args) == 2 else next((k.value for k in c.keywords if k.arg == "parent_xpath"), None)
+                if args[:1] == [norm(lp.target)] and pv is not None and spelled_root(pv):
+                    ok_loop = True
+        if not ok_loop:
+            if any("_set_xpath" in norm(st) for st in lf.stmts):
+                raise Unsupported("calculate_xpath: propagation to the children not recognised", g.node)
+            bad = "the children's paths are not set from the root path"
+    (ck.holds if not bad else ck.violation)("R-LEG-XPATH-SPELL", g, g.node, what, **({"evaluations": len(leaves)} if not bad else {"construct": f"calculate_xpath: {bad}"}))
 
 
 def r_legacy_step(ck: Checker) -> None:
+    from ..dtree import check_formula
     f = ck.repo.func(LXP, "_match_node_xpath")
     body = strip_docstring(f.node.body)
-    last = body[-1]
-    if not isinstance(last, ast.If):
-        raise Unsupported("legacy _match_node_xpath does not end with the step test", f.node)
+    # the step test is what follows the ancestor loop of the '//' case
+    idx = max((i for i, st in enumerate(body) if any(isinstance(n, ast.For) for n in ast.walk(st))), default=None)
+    if idx is None or idx + 1 >= len(body):
+        raise Unsupported("legacy _match_node_xpath: no step test after the ancestor loop", f.node)
+    tail = body[idx + 1:]
+    last = tail[0]
     np_, ep = f.node.args.args[0].arg, f.node.args.args[1].arg
     el = f"{ep}[0]"
     what = "legacy step test: instance of the class, field constraint (if given) equals the node's parent field name, index constraint (if given) equals its parent index"
-    bad = []
     pf_actual = f"{np_}.parent_field.name if {np_}.parent_field else None"
-    rows = bool_function([ast.Return(value=last.test)])
     k = {"inst": f"isinstance({np_}, {el}.ast_class)", "pfn": k_none(f"{el}.parent_field"), "pfe": k_eq(f"{el}.parent_field", pf_actual),
-         "pin": k_none(f"{el}.parent_index"), "pie": k_eq(f"{el}.parent_index", f"{np_}.parent_index")}
-    import itertools
-    unrec = False
-    for a, v, lf in rows:
-        if set(a) - set(k.values()):
-            unrec = True
-            continue
-        free = [x for x in k.values() if x not in a]
-        vals = set()
-        for combo in itertools.product((True, False), repeat=len(free)):
-            full = dict(a)
-            full.update(dict(zip(free, combo)))
-            vals.add(bool(full[k["inst"]] and (full[k["pfn"]] or full[k["pfe"]]) and (full[k["pin"]] or full[k["pie"]])))
-        if vals != {bool(v)}:
-            bad.append(f"{a}: {v}, expected {sorted(vals)}")
-    if unrec and not bad:
-        raise Unsupported("legacy step test decides on unrecognised atoms", last)
-    ok_up = len(last.body) == 1 and isinstance(last.body[0], ast.Return) and norm(last.body[0].value) == f"_match_node_xpath({np_}.parent, {ep}[1:])" \
-        and len(last.orelse) == 1 and norm(last.orelse[0]) == "return False"
-    if not ok_up:
-        bad.append("a matching step does not continue with the parent and the remaining elements / a mismatch does not return False")
+         "pin": k_none(f"{el}.parent_index"), "pie": k_eq(f"{el}.parent_index", f"{np_}.parent_index"),
+         "up": f"_match_node_xpath({np_}.parent, {ep}[1:])"}
+    # aliases for the element (element = elements[0]) defined before the loop take part in the resolution
+    pre = [st for st in body[:idx] if isinstance(st, ast.Assign) and len(st.targets) == 1 and isinstance(st.targets[0], ast.Name)]
+    rows = bool_function(pre + tail, resolve=True)
+    bad = [str(b) for b in check_formula(rows, list(k.values()), lambda a: bool(a[k["inst"]] and (a[k["pfn"]] or a[k["pfe"]]) and (a[k["pin"]] or a[k["pie"]]) and a[k["up"]]),
+                                         where=last)]
     (ck.violation if bad else ck.holds)("R-XP-SHARED", f, last, what, evaluations=len(rows), **({"construct": f"legacy _match_node_xpath: {bad[0]}"} if bad else {}))
 
 
@@ -179,8 +200,8 @@ def r_legacy_match_head(ck: Checker) -> None:
     f = ck.repo.func(LXP, "_match_node_xpath")
     body = strip_docstring(f.node.body)
     dom = lambda k: (0, 1, 2) if k.startswith("len(") else (True, False)  # noqa: E731
-    rows = bool_function(body[:1], domain=dom)
     k_node_none = k_none("node")
+    rows = bool_function(body, preset={k_node_none: True}, domain=dom, sized=("elements",))
     k_len = "len(elements)"
     k_any = "isinstance(elements[0], ASTXpathAnywhereElement)"
     bad = []
